@@ -276,6 +276,13 @@ func judgeTrust(v *Verdict, c *world.Case, pool []*x509.Certificate) {
 	if leaf.Subject.CommonName != world.CNPck {
 		v.add("C02", "leaf-not-pck", leaf.Subject.CommonName)
 	}
+	// what makes a certificate a PCK certificate is its SGX extension: it must be there, be DER, and carry at least one of the
+	// platform identifiers (the reference asks for no more than that; exact extraction is C13's subject)
+	if sgx, err := SgxOfCert(leaf); err != nil {
+		v.add("C02", "leaf-without-sgx-extension", err.Error())
+	} else if !sgx.SeenF && !sgx.SeenPceID && !sgx.SeenPPID && !sgx.SeenPce && !sgx.SeenCPU {
+		v.add("C02", "leaf-sgx-extension-empty", "")
+	}
 	var z time.Time
 	if !pathOK(leaf, []*x509.Certificate{inter}, pool, z, false) {
 		v.add("C02", "no-path-to-pool", "")
